@@ -291,17 +291,23 @@ func runC10(c *Ctx) {
 
 	// ---------- R10.4 lazy load gate
 	c.Rule("R10.4", "E1", "inmem.State: every public method passes loadStore()==nil before touching a collection; loaded.Store(true) only after Load()==nil, under storeMu, flag re-checked under the lock", 11)
+	loadGate(c, "R10.4")
+}
+
+func loadGate(c *Ctx, rule string) {
+	p := c.P
+
 
 	stT := "(*" + pkgInmem + ".State)"
 
 	for _, m := range coreStateMethods {
 		f := p.Method(pkgInmem, "State", m)
-		c.MustCut("R10.4", "getCollection ⊣ {loadStore(ctx)==nil}", f, p.CallTo(stT+".getCollection"),
+		c.MustCut(rule, "getCollection ⊣ {loadStore(ctx)==nil}", f, p.CallTo(stT+".getCollection"),
 			CutSpec{Edges: FactEdge("nil(call:" + stT + ".loadStore(param#0,param#1))")}, 1)
 	}
 
 	ls := p.Method(pkgInmem, "State", "loadStore")
-	if c.NeedFunc("R10.4", ls, stT+".loadStore") {
+	if c.NeedFunc(rule, ls, stT+".loadStore") {
 		storeTrue := func(in ssa.Instruction) bool {
 			call, ok := in.(ssa.CallInstruction)
 
@@ -309,16 +315,16 @@ func runC10(c *Ctx) {
 		}
 		load := p.CallTo("(" + pkgInmem + ".BackingStore).Load")
 
-		c.MustCut("R10.4", "loaded.Store ⊣ {store.Load(...)==nil}", ls, storeTrue, CutSpec{Edges: FactEdge(factNil("(" + pkgInmem + ".BackingStore).Load"))}, 1)
+		c.MustCut(rule, "loaded.Store ⊣ {store.Load(...)==nil}", ls, storeTrue, CutSpec{Edges: FactEdge(factNil("(" + pkgInmem + ".BackingStore).Load"))}, 1)
 
 		for _, in := range Find(ls, storeTrue) {
-			c.Check(p.ArgDesc(in.(ssa.CallInstruction), 1) == "const:true", "R10.4", FuncName(ls)+" :: loaded.Store(true)", in.Pos(), "true", "stores "+p.ArgDesc(in.(ssa.CallInstruction), 1))
+			c.Check(p.ArgDesc(in.(ssa.CallInstruction), 1) == "const:true", rule, FuncName(ls)+" :: loaded.Store(true)", in.Pos(), "true", "stores "+p.ArgDesc(in.(ssa.CallInstruction), 1))
 		}
 
 		li := p.Lockset(LockSpec{Rel: pkgInmem, Struct: "State", Mutex: "storeMu"}, pkgInmem)
 
 		for _, in := range append(Find(ls, load), Find(ls, storeTrue)...) {
-			c.Check(li.HeldAt(in) > 0, "R10.4", FuncName(ls)+" :: storeMu held at "+p.CalleeName(in.(ssa.CallInstruction)), in.Pos(), "held", "storeMu is not held")
+			c.Check(li.HeldAt(in) > 0, rule, FuncName(ls)+" :: storeMu held at "+p.CalleeName(in.(ssa.CallInstruction)), in.Pos(), "held", "storeMu is not held")
 		}
 
 		lockCall := func(in ssa.Instruction) bool {
@@ -326,15 +332,15 @@ func runC10(c *Ctx) {
 
 			return ok && p.CalleeName(call) == "(*sync.Mutex).Lock" && Glob("param#0.storeMu", p.ArgDesc(call, 0))
 		}
-		c.MustFollow("R10.4", "after storeMu.Lock, Load only behind a fresh loaded.Load()==false", ls, lockCall, load,
+		c.MustFollow(rule, "after storeMu.Lock, Load only behind a fresh loaded.Load()==false", ls, lockCall, load,
 			CutSpec{Edges: FactEdge("false(call:(*sync/atomic.Bool).Load(param#0.loaded))")}, 1)
 
 		// the load handler injects what it was given into the collection of the given type
 		h := ClosureWith(ls, p.CallTo(gInject))
-		if c.NeedFunc("R10.4", h, "load handler closure") {
+		if c.NeedFunc(rule, h, "load handler closure") {
 			inj := p.Calls(h, gInject)
 			ok := len(inj) == 1 && Glob("call:"+stT+".getCollection(free:param#0,param#0)", p.ArgDesc(inj[0], 0)) && p.ArgDesc(inj[0], 1) == "param#1"
-			c.Check(ok, "R10.4", FuncName(h)+" :: inject(resource) into the collection of its type", fpos(h), "yes", "handler injects into another collection / another object")
+			c.Check(ok, rule, FuncName(h)+" :: inject(resource) into the collection of its type", fpos(h), "yes", "handler injects into another collection / another object")
 		}
 	}
 }
